@@ -1,22 +1,25 @@
 (** * C05 -- point-in-loop and point-in-polygon answers.
     Exact tier: the model of Loop3D::test_point / Polygon3D::test_point read on the real numbers.
-    The chain proved here:
+    The chain proved here (about the code as it is, i.e. after fix 6f318c4 of the ray length):
       gates (open loop => error; off-plane point => outside; polygon = outer and not in any hole);
       CORE   for a closed, exactly planar loop, a point of its plane that no edge "contains" and a GENERIC cast
              segment, test_point = parity of the number of edges properly crossed by the cast segment
-             q -> q + 1000 (q - m)  (m = midpoint of the first stored edge);
+             q -> q + d,  d = (q - m) max(2 reach, 1000) / |q - m|  (m = midpoint of the first stored edge, reach =
+             distance from q to the farthest vertex);
       that crossing predicate means "the segment meets the edge at an interior point of the edge";
-      if the cast segment is LONG ENOUGH to pass every vertex, it is the crossing number of the RAY;
+      the cast segment passes every vertex (proved for the live code), so it is the crossing number of the RAY;
       in 2-D coordinates of the plane the predicate is the planar one;
       planar: the ray's crossing parity = parity of the number of fan triangles containing the point, for ANY apex
-      in general position -- so it does not depend on the ray's direction.
-    The hypotheses that had to be added are exactly the recorded findings (known_findings.json):
-      "long enough"            <-> C05:ray-too-short      (finding F7 (i)),
+      in general position = parity of the winding number (Theory/Winding.v) -- it does not depend on the ray.
+    The hypotheses that remain are exactly the recorded findings (known_findings.json):
       "no edge contains q"     <-> C05:on-edge-tolerance / C05:on-edge-parameter (F7 (ii) and its parameter test),
       "generic" (edge_generic) <-> C05:vertex-grazing     (F7 (iii)) and the absolute parallelism tolerance (F11).
+    Finding C05:ray-too-short (F7 (i)) is FIXED (6f318c4); its machine-checked record is kept in the C05_pinned_*
+    statements about [loop_test_point_pinned] (Model/PinnedLoop.v, the code before the fix), which need the length
+    hypothesis [long_enough] that the witness violates.
     Witnesses of each finding are evaluated below on the binary64 instance of the same model text. *)
 From Coq Require Import ZArith Reals Bool List Arith Floats.
-From G3 Require Import Model.Num Model.NumF Model.Base Model.Vec Model.Segment Model.Loop Model.Polygon Model.LoopPatched
+From G3 Require Import Model.Num Model.NumF Model.Base Model.Vec Model.Segment Model.Loop Model.Polygon Model.PinnedLoop
   Theory.RInst Theory.LoopGeom Proofs.C05_pointtest Proofs.C05_examples Proofs.C05_winding.
 From G3 Require Theory.Cyclic Theory.Winding.
 Import ListNotations.
@@ -39,9 +42,10 @@ Theorem C05_polygon_is_outer_and_not_hole : forall (P : Poly R) (q : V3 R) (o : 
 Proof. exact poly_test_point_outer_and_not_hole. Qed.
 
 (** ** the core *)
-(** [edge_generic n q d a b] (Proofs/C05_pointtest.v): a and b lie in the plane of q;  |(b - a) x d|^2 >= 1e-5
-    (not parallel for [is_same_direction] and for the projection threshold of [get_intersection_pt]);  q is not
-    numerically the vertex a;  the line of the cast segment does not pass through b, nor within EPSILON (in the
+(** [test_ray L q] = [loop_ray L q], the cast segment of the live code.
+    [edge_generic n q d a b] (Proofs/C05_pointtest.v): a and b lie in the plane of q;  |(b - a) x d|^2 >= 1e-5
+    (not parallel for [is_same_direction] and for the projection threshold of [get_intersection_pt]);
+    the line of the cast segment does not pass through b, nor within EPSILON (in the
     edge's parameter) of a -- i.e. the vertex rules of test_point are not consulted.
     [crossb3 n q d a b]: a and b strictly on opposite sides of the segment's line and q, q + d on opposite sides of
     (or on) the edge's line. *)
@@ -68,12 +72,26 @@ Theorem C05_crossing_is_geometric : forall n q d a b : V3 R,
    exists ta tb, 0 < ta < 1 /\ 0 <= tb <= 1 /\ vadd a (vscale (vsub b a) ta) = vadd q (vscale d tb)).
 Proof. exact crossb3_meets. Qed.
 
-(** ** segment -> ray: the F7 hypothesis made explicit.  [long_enough q d vs]: (v - q) . d <= d . d for every vertex,
-    i.e. 1000 |q - m| exceeds the extent of the loop along the ray *)
+(** ** segment -> ray.  [long_enough q d vs]: (v - q) . d <= d . d for every vertex, i.e. the cast segment exceeds the
+    extent of the loop along the ray (the hypothesis that finding F7 (i) violated) *)
 Theorem C05_long_segment_is_ray : forall (n q d : V3 R) (vs : list (V3 R)),
   vdot n d = 0 -> 0 < vdot d d -> long_enough q d vs ->
   countb (crossb3 n q d) (cyc_edges vs) = countb (rayb3 n q d) (cyc_edges vs).
 Proof. exact count_long_segment_is_ray. Qed.
+
+(** the cast segment of the live code passes every vertex (and is at least 1000 long) whenever q is not the midpoint m *)
+Theorem C05_ray_long_enough : forall (L : Loop R) (q : V3 R),
+  0 < vlen2 (vsub q (vscale (vadd (vnth (verts L) O) (vnth (verts L) (S O))) nhalf)) ->
+  long_enough q (test_ray L q) (verts L) /\ 1000 * 1000 <= vdot (test_ray L q) (test_ray L q).
+Proof. exact loop_ray_long_enough. Qed.
+(** hence: the parity of the edges crossed by the RAY, with no length hypothesis *)
+Theorem C05_test_point_counts_ray_crossings : forall (L : Loop R) (q : V3 R),
+  lclosed L = true -> (2 <= llen L)%nat ->
+  let n := lnormal L in let d := test_ray L q in
+  vis_zero n = false -> 0 < vdot n n ->
+  (forall a b, In (a, b) (cyc_edges (verts L)) -> seg_contains_point (seg_new a b) q = Ok false /\ edge_generic n q d a b) ->
+  loop_test_point L q = Ok (Nat.odd (countb (rayb3 n q d) (cyc_edges (verts L)))).
+Proof. exact test_point_counts_ray_crossings. Qed.
 
 (** ** the plane: coordinates (e1 . (p - o), e2 . (p - o)) with e1 x e2 = n turn the 3-D predicate into the planar one *)
 Theorem C05_plane_coordinates : forall o e1 e2 q d a b : V3 R,
@@ -98,18 +116,17 @@ Proof. exact ray_parity_direction_independent. Qed.
 (** ** assembled.  PARTIAL with respect to the property: the statements still carry (a) exact planarity, (b) "no edge
     contains q" in the sense of [contains_point] (which is wider than the property's 1e-5: findings on-edge-tolerance /
     on-edge-parameter), (c) genericity of the cast segment (finding vertex-grazing: the vertex rules are NOT proved
-    correct -- in floating point they are not, see the witness below), (d) the length hypothesis (finding ray-too-short;
-    discharged for the repaired code below).  Under these, [test_point] = parity of the number of fan triangles
-    containing q (self-contained, Theory/LoopGeom.v) = parity of the winding number of Theory/Winding.v about q, along
-    the code's ray or any other generic ray; for an outline with winding numbers in {0,1} (the input space of DESIGN D2;
-    that simple polygons are such is the Jordan curve theorem, not proved) the answer is [true] iff wn = 1. *)
+    correct -- in floating point they are not, see the witness below).  The length hypothesis is gone (fix 6f318c4).
+    Under these, [test_point] = parity of the number of fan triangles containing q (self-contained, Theory/LoopGeom.v)
+    = parity of the winding number of Theory/Winding.v about q, along the code's ray or any other generic ray; for an
+    outline with winding numbers in {0,1} (the input space of DESIGN D2; that simple polygons are such is the Jordan
+    curve theorem, not proved) the answer is [true] iff wn = 1. *)
 Theorem C05_test_point_fan_parity_partial : forall (L : Loop R) (q o e1 e2 : V3 R) (apex : P2),
   lclosed L = true -> (2 <= llen L)%nat ->
   let n := lnormal L in let d := test_ray L q in
   let pr := plane2 o e1 e2 in let q' := pr q in let d' := planev e1 e2 d in
   vis_zero n = false -> 0 < vdot n n -> n = vcross e1 e2 ->
   (forall a b, In (a, b) (cyc_edges (verts L)) -> seg_contains_point (seg_new a b) q = Ok false /\ edge_generic n q d a b) ->
-  0 < vdot d d -> long_enough q d (verts L) ->
   hgt2 q' d' apex <> 0 ->
   (forall v, In v (verts L) -> hgt2 q' d' (pr v) <> 0 /\ orient2 apex (pr v) q' <> 0) ->
   (forall a b, In (a, b) (cyc_edges (verts L)) -> orient2 (pr a) (pr b) q' <> 0) ->
@@ -122,7 +139,6 @@ Theorem C05_test_point_is_winding_parity_partial : forall (L : Loop R) (q o e1 e
   let pr := plane2 o e1 e2 in let q' := pr q in let d' := planev e1 e2 d in
   vis_zero n = false -> 0 < vdot n n -> n = vcross e1 e2 ->
   (forall a b, In (a, b) (cyc_edges (verts L)) -> seg_contains_point (seg_new a b) q = Ok false /\ edge_generic n q d a b) ->
-  0 < vdot d d -> long_enough q d (verts L) ->
   (forall a b, In (a, b) (cyc_edges (verts L)) -> orient2 (pr a) (pr b) q' <> 0) ->
   loop_test_point L q = Ok (Z.odd (Winding.wn d' (map pr (verts L)) q')).
 Proof. exact test_point_wn_parity. Qed.
@@ -132,7 +148,6 @@ Theorem C05_test_point_is_membership_partial : forall (L : Loop R) (q o e1 e2 : 
   let pr := plane2 o e1 e2 in let q' := pr q in let d' := planev e1 e2 d in
   vis_zero n = false -> 0 < vdot n n -> n = vcross e1 e2 ->
   (forall a b, In (a, b) (cyc_edges (verts L)) -> seg_contains_point (seg_new a b) q = Ok false /\ edge_generic n q d a b) ->
-  0 < vdot d d -> long_enough q d (verts L) ->
   (forall a b, In (a, b) (cyc_edges (verts L)) -> orient2 (pr a) (pr b) q' <> 0) ->
   (0 <= Winding.wn d' (map pr (verts L)) q' <= 1)%Z ->
   (loop_test_point L q = Ok true <-> Winding.wn d' (map pr (verts L)) q' = 1%Z).
@@ -143,49 +158,54 @@ Theorem C05_answer_independent_of_ray_partial : forall (L : Loop R) (q o e1 e2 :
   let pr := plane2 o e1 e2 in let q' := pr q in let d' := planev e1 e2 d in
   vis_zero n = false -> 0 < vdot n n -> n = vcross e1 e2 ->
   (forall a b, In (a, b) (cyc_edges (verts L)) -> seg_contains_point (seg_new a b) q = Ok false /\ edge_generic n q d a b) ->
-  0 < vdot d d -> long_enough q d (verts L) ->
   (forall a b, In (a, b) (cyc_edges (verts L)) -> orient2 (pr a) (pr b) q' <> 0) ->
   Winding.generic d' q' (map pr (verts L)) -> Winding.generic d2 q' (map pr (verts L)) -> Winding.off_edges (map pr (verts L)) q' ->
   loop_test_point L q = Ok (Z.odd (Winding.wn d2 (map pr (verts L)) q')).
 Proof. exact test_point_any_ray. Qed.
 
-(** ** the proposed repair of C05:ray-too-short (Model/LoopPatched.v; NOT applied to /repo): cast segment of length
-    max (2 * distance to the farthest vertex, 1000) in the same direction.  Its length hypothesis is discharged. *)
-Theorem C05_patched_ray_long_enough : forall (L : Loop R) (q : V3 R),
-  0 < vlen2 (vsub q (vscale (vadd (vnth (verts L) O) (vnth (verts L) (S O))) nhalf)) ->
-  long_enough q (patched_ray L q) (verts L) /\ 1000 * 1000 <= vdot (patched_ray L q) (patched_ray L q).
-Proof. exact patched_ray_long_enough. Qed.
-Theorem C05_patched_test_point_counts_ray_crossings : forall (L : Loop R) (q : V3 R),
+(** ** the code before fix 6f318c4 ([loop_test_point_pinned], cast segment 1000 (q - m); Model/PinnedLoop.v): record of
+    finding C05:ray-too-short.  The same statements hold only under the length hypothesis ... *)
+Theorem C05_pinned_test_point_counts_crossings : forall (L : Loop R) (q : V3 R),
   lclosed L = true -> (2 <= llen L)%nat ->
-  let n := lnormal L in let d := patched_ray L q in
+  let n := lnormal L in let d := pinned_ray L q in
   vis_zero n = false -> 0 < vdot n n ->
-  0 < vlen2 (vsub q (vscale (vadd (vnth (verts L) O) (vnth (verts L) (S O))) nhalf)) ->
   (forall a b, In (a, b) (cyc_edges (verts L)) -> seg_contains_point (seg_new a b) q = Ok false /\ edge_generic n q d a b) ->
-  loop_test_point_patched L q = Ok (Nat.odd (countb (rayb3 n q d) (cyc_edges (verts L)))).
-Proof. exact patched_test_point_counts_ray_crossings. Qed.
+  loop_test_point_pinned L q = Ok (Nat.odd (countb (crossb3 n q d) (cyc_edges (verts L)))).
+Proof. exact pinned_test_point_counts_crossings. Qed.
+Theorem C05_pinned_test_point_is_winding_parity_if_long_enough : forall (L : Loop R) (q o e1 e2 : V3 R),
+  lclosed L = true -> (2 <= llen L)%nat ->
+  let n := lnormal L in let d := pinned_ray L q in
+  let pr := plane2 o e1 e2 in let q' := pr q in let d' := planev e1 e2 d in
+  vis_zero n = false -> 0 < vdot n n -> n = vcross e1 e2 ->
+  (forall a b, In (a, b) (cyc_edges (verts L)) -> seg_contains_point (seg_new a b) q = Ok false /\ edge_generic n q d a b) ->
+  0 < vdot d d -> long_enough q d (verts L) ->
+  (forall a b, In (a, b) (cyc_edges (verts L)) -> orient2 (pr a) (pr b) q' <> 0) ->
+  loop_test_point_pinned L q = Ok (Z.odd (Winding.wn d' (map pr (verts L)) q')).
+Proof. exact pinned_test_point_wn_parity. Qed.
+(** ... which fails for the witness q = (1/2, 1/10000, 0) of the unit square (the vertex (1,1,0) is not passed) *)
+Theorem C05_pinned_length_hypothesis_fails :
+  ~ long_enough (mkV3 (1 / 2) (1 / 10000) 0) (pinned_ray usq (mkV3 (1 / 2) (1 / 10000) 0)) (verts usq).
+Proof. exact usq_f7_not_long_enough. Qed.
 
-(** ** non-vacuity (rational data, unit square): the hypotheses of the core theorem hold for q = (3/4, 1/4, 0), its
-    cast segment is long enough, and the answer is [true]; for q = (1/2, 1/10000, 0) the length hypothesis FAILS *)
+(** ** non-vacuity (rational data, unit square): the hypotheses of the core theorem hold for q = (4/5, 2/5, 0) (its cast
+    segment is (600, 800, 0)), and the answer is [true] *)
 Example C05_unit_square_hypotheses :
   lclosed usq = true /\ (2 <= llen usq)%nat /\ vis_zero (lnormal usq) = false /\ 0 < vdot (lnormal usq) (lnormal usq) /\
   (forall a b, In (a, b) (cyc_edges (verts usq)) ->
      seg_contains_point (seg_new a b) uq = Ok false /\ edge_generic (lnormal usq) uq (test_ray usq uq) a b) /\
-  long_enough uq (test_ray usq uq) (verts usq) /\
+  test_ray usq uq = mkV3 600 800 0 /\
   loop_test_point usq uq = Ok true.
 Proof.
   destruct usq_gates as [G1 [G2 [G3 G4]]]. split; [exact G1|]. split; [exact G2|]. split; [exact G3|]. split; [exact G4|].
-  split; [exact usq_edges|]. split; [exact usq_long_enough | exact usq_inside].
+  split; [exact usq_edges|]. split; [exact test_ray_usq | exact usq_inside].
 Qed.
-Example C05_unit_square_f7_hypothesis_fails :
-  ~ long_enough (mkV3 (1 / 2) (1 / 10000) 0) (test_ray usq (mkV3 (1 / 2) (1 / 10000) 0)) (verts usq).
-Proof. exact usq_f7_not_long_enough. Qed.
-
 (** ** refutations of the unqualified property on the binary64 instance (each reproduced on the real crate) *)
 Local Open Scope float_scope.
-(** (i) C05:ray-too-short -- (0.5, 1e-4, 0) is inside the unit square; the repaired code answers [true] *)
-Theorem C05_ray_too_short_refuted : exists (L : Loop float) (q : V3 float),
-  L = fsq 1 /\ q = mkV3 0.5 1e-4 0 /\ ftest L q = Ok false /\ ftest_patched L q = Ok true.
-Proof. exists (fsq 1), (mkV3 0.5 1e-4 0). split; [reflexivity|]. split; [reflexivity|]. split; [exact (proj1 f7_ray_too_short) | exact (proj1 f7_ray_too_short_repaired)]. Qed.
+(** (i) C05:ray-too-short, FIXED by 6f318c4 -- (0.5, 1e-4, 0) is inside the unit square: the code before the fix
+    ([ftest_pinned]) answered [false], the live code ([ftest]) answers [true] *)
+Theorem C05_pinned_ray_too_short_refuted : exists (L : Loop float) (q : V3 float),
+  L = fsq 1 /\ q = mkV3 0.5 1e-4 0 /\ ftest_pinned L q = Ok false /\ ftest L q = Ok true.
+Proof. exists (fsq 1), (mkV3 0.5 1e-4 0). split; [reflexivity|]. split; [reflexivity|]. split; [exact (proj1 f7_ray_too_short_pinned) | exact (proj1 f7_ray_too_short_live)]. Qed.
 (** (ii) C05:on-edge-tolerance -- square of side 0.1: the point 5e-5 outside the bottom edge is reported inside *)
 Theorem C05_on_edge_tolerance_refuted : exists (L : Loop float) (q : V3 float),
   L = fsq 0.1 /\ q = mkV3 0.05 (-5e-5) 0 /\ ftest L q = Ok true.
@@ -194,7 +214,7 @@ Proof. exists (fsq 0.1), (mkV3 0.05 (-5e-5) 0). split; [reflexivity|]. split; [r
 Theorem C05_on_edge_parameter_refuted : exists (L : Loop float) (q : V3 float),
   L = fquad /\ q = mkV3 1.001 1.009 0 /\ ftest L q = Ok true.
 Proof. exists fquad, (mkV3 1.001 1.009 0). split; [reflexivity|]. split; [reflexivity|]. exact (proj1 f7_on_edge_parameter). Qed.
-(** (iii) C05:vertex-grazing -- rectangle 0.7 x 0.3: the ray of the interior point (0.49, 0.12, 0) is aimed at the vertex (0.7, 0.3, 0) *)
+(** (iii) C05:vertex-grazing -- rectangle 0.7 x 0.3: the ray of the interior point (0.175, 0.15, 0) is aimed at the vertex (0, 0.3, 0) *)
 Theorem C05_vertex_grazing_refuted : exists (L : Loop float) (q : V3 float),
-  L = frect /\ q = mkV3 0.49 0.12 0 /\ ftest L q = Ok false.
-Proof. exists frect, (mkV3 0.49 0.12 0). split; [reflexivity|]. split; [reflexivity|]. exact (proj1 f7_vertex_grazing). Qed.
+  L = frect /\ q = mkV3 0.175 0.15 0 /\ ftest L q = Ok false.
+Proof. exists frect, (mkV3 0.175 0.15 0). split; [reflexivity|]. split; [reflexivity|]. exact (proj1 f7_vertex_grazing). Qed.
